@@ -422,7 +422,7 @@ Proof.
         destruct (ls_esz val =? 3); [cbn; lia|]. destruct (ls_esz val =? 4); [cbn; lia|].
         destruct (ls_esz val =? 5); cbn; lia. }
       nia.
-Admitted.
+Qed.
 
 (* ------------------------------------------------------------------ facts about spec targets *)
 Definition tgt_wf (t : target) : Prop :=
